@@ -115,5 +115,4 @@ func printResult(res *HarnessResult) {
 
 var _ = strconv.Itoa
 
-func cmdRun(args []string)    { fmt.Println("not yet") }
 func cmdReplay(args []string) { fmt.Println("not yet") }
